@@ -142,7 +142,7 @@ def handleFc (id mode kindFull sent : String) (obs : List String) : String :=
         -- the recogniser classifies the request as the generator meant it
         let meantMalformed := kind.startsWith "oversize-" || kind.startsWith "badhdr-"
         let meantWellFormed := kind.startsWith "valid-" || kind.startsWith "big-" ||
-          kind.startsWith "refused-" || kind == "panic"
+          kind.startsWith "refused-" || kind.startsWith "answered-" || kind == "panic"
         let classAgree := (!meantMalformed || !wfReq) && (!meantWellFormed || wfReq) &&
           (!(kind.startsWith "trunc-") || k == 0)
         let agree := oracleAgree && classAgree
@@ -161,7 +161,10 @@ def handleFc (id mode kindFull sent : String) (obs : List String) : String :=
                  (kind != "refused-404" || st == 404) && (kind != "refused-405" || st == 405)
                | _ => false)
             let panicOk := kind != "panic" || cnt == 0
-            countOk && restOk && validOk && bigOk && refusedOk && panicOk
+            -- `answered-*`: a well-formed request the server may accept or refuse, but must answer
+            let answeredOk := !(kind.startsWith "answered-") ||
+              (match sts with | [st] => st == 200 || (400 ≤ st && st < 500) | _ => false)
+            countOk && restOk && validOk && bigOk && refusedOk && panicOk && answeredOk
         let answered := match lean with
           | some [] => "silent"
           | some (st :: _) => s!"{st / 100}xx"
